@@ -1,5 +1,5 @@
 """Per-property check definitions."""
-import os, json, random, time, shutil
+import os, json, random, time, shutil, re
 import vlib
 from vlib import log, ToolError
 import gens
@@ -490,6 +490,189 @@ CHECKS["C17"] = session_check({"mc": "MC_Session", "mc_cfg": {"quick": "MC_Sessi
 
 CHECKS["C02"] = session_check({"mc": "MC_C02", "mc_cfg": {"quick": "MC_C02.cfg", "thorough": "MC_C02_thorough.cfg"},
                                "gen": sess.gen_c02, "assumptions": SESSION_ASSUME + ["cget/cset cycles of 2-4 unsynchronised sessions; no barriers"]})
+
+
+# ----------------------------------------------------------------------------- C20: client library
+BUFFER_TRACE_CFG = """SPECIFICATION TSpec
+CONSTANTS
+  D = 10
+  BKeys = {"a", "b", "c"}
+  BVals = {}
+  MaxHand = 0
+  MaxTime = 0
+  BDev = @DEV@
+INVARIANT TraceC20
+INVARIANT NotAccepted
+CHECK_DEADLOCK FALSE
+"""
+
+
+def c20_check(prop, tier, seed, replay):
+    known = vlib.known_flags()
+    bknown = [f for f in known if f == "D_PUB_BUFFER"]
+    vlib.build_harness()
+    d = vlib.workdir(prop)
+    rnd = random.Random(seed)
+    known_seen, violations = {}, []
+
+    # -- pairing / typed results / unsubscribe: calls of concurrent tasks on one connection --------
+    def run_calls(scs, tag):
+        path = os.path.join(d, f"sc_{tag}.ndjson")
+        with open(path, "w") as f:
+            f.write(json.dumps({"hdr": True, "meaning": {}}) + "\n")
+            for s_ in scs:
+                f.write(json.dumps(s_) + "\n")
+        raw = os.path.join(d, f"raw_{tag}.ndjson")
+        vlib.run_harness(["client-run", path, raw, os.path.join(d, "sock")], timeout=1800)
+        tr = os.path.join(d, f"tr_{tag}.ndjson")
+        n = sess.postprocess(raw, tr)
+        r = sess.validate(d, tr, known, 900)
+        r["n"], r["scs"] = n, scs
+        return r
+
+    def handle_calls(r, tag):
+        if r["status"] == "known":
+            for f in r["flags"]:
+                known_seen[f] = known_seen.get(f, 0) + 1
+        elif r["status"] == "violation":
+            bad = None
+            for i, s_ in enumerate(r["scs"]):
+                r1 = run_calls([s_], f"{tag}_one{i}")
+                if r1["status"] == "violation":
+                    bad = (i, s_, r1)
+                    break
+            payload = {"property": prop, "kind": "client-calls", "scenario": bad[1] if bad else r["scs"],
+                       "detail": (bad[2] if bad else r).get("detail")}
+            p = vlib.save_replay(prop, f"{tag}_{len(violations)}", payload)
+            violations.append({"replay": p, "what": "the results of the library calls (and the server-side probes after unsubscribe) are not "
+                               "explained by any interleaving of the calls in the specification: %s" % str((bad[2] if bad else r).get("detail", {}))[:500]})
+
+    # -- send buffer ----------------------------------------------------------------------------
+    def validate_buffer(trace, flags):
+        import hashlib, shutil
+        sub = os.path.join(d, "vb_" + hashlib.md5((trace + ",".join(flags)).encode()).hexdigest()[:10])
+        os.makedirs(sub, exist_ok=True)
+        for f in os.listdir(d):
+            if f.endswith(".tla"):
+                shutil.copy(os.path.join(d, f), sub)
+        env = dict(vlib.TRACE_ENV)
+        env["TRACE"] = trace
+        out = vlib.tlc(sub, "Trace_Buffer", BUFFER_TRACE_CFG.replace("@DEV@", vlib.dev_set(flags)), workers=1, timeout=600, env=env, heap="3g")
+        shutil.rmtree(os.path.join(sub, "md"), ignore_errors=True)
+        if "Invariant NotAccepted is violated" in out:
+            used = []
+            for line in out.splitlines():
+                if line.startswith('"DEV-USED'):
+                    used = sorted(set(re.findall(r"D_[A-Z_]+", line)))
+            return True, {"used": used}
+        st = vlib.tlc_stats(out)
+        err = vlib.tlc_error(out)
+        if st is None and err is None:
+            raise ToolError("TLC gave no result:\n" + out[-3000:])
+        if err and "Invariant" not in err:
+            raise ToolError("TLC evaluation error on buffer trace:\n" + out[-4000:])
+        return False, {"tail": out[-600:], "err": err}
+
+    def run_buffer(scs, tag):
+        path = os.path.join(d, f"bsc_{tag}.ndjson")
+        with open(path, "w") as f:
+            f.write(json.dumps({"hdr": True}) + "\n")
+            for s_ in scs:
+                f.write(json.dumps(s_) + "\n")
+        tr = os.path.join(d, f"btr_{tag}.ndjson")
+        vlib.run_harness(["buffer-run", path, tr], timeout=900)
+        n = sum(1 for _ in open(tr)) - 1
+        ok, det = validate_buffer(tr, [])
+        if ok:
+            return {"status": "ok", "n": n, "scs": scs}
+        if bknown:
+            ok2, det2 = validate_buffer(tr, bknown)
+            if ok2:
+                return {"status": "known", "flags": det2["used"], "n": n, "scs": scs}
+        return {"status": "violation", "detail": det, "n": n, "scs": scs, "trace": tr}
+
+    def handle_buffer(r, tag):
+        if r["status"] == "known":
+            for f in r["flags"]:
+                known_seen[f] = known_seen.get(f, 0) + 1
+        elif r["status"] == "violation":
+            bad = None
+            for i, s_ in enumerate(r["scs"]):
+                r1 = run_buffer([s_], f"{tag}_one{i}")
+                if r1["status"] == "violation":
+                    bad = (s_, r1)
+                    break
+            obs = [json.loads(x) for x in open(bad[1]["trace"]).read().splitlines()[1:]] if bad else None
+            payload = {"property": prop, "kind": "send-buffer", "scenario": bad[0] if bad else r["scs"], "observed": obs,
+                       "detail": (bad[1] if bad else r).get("detail")}
+            p = vlib.save_replay(prop, f"buf_{tag}_{len(violations)}", payload)
+            violations.append({"replay": p, "what": "what the send buffer sent is not a behaviour of SendBuffer.tla in which every value handed over "
+                               "leaves as a set/publish of the latest value of its key: observed %s" % json.dumps(obs)[:700]})
+
+    if replay:
+        pl = json.load(open(replay))
+        scs = pl["scenario"] if isinstance(pl["scenario"], list) else [pl["scenario"]]
+        if pl.get("kind") == "send-buffer":
+            handle_buffer(run_buffer(scs, "replay"), "replay")
+        else:
+            for k in range(5):
+                handle_calls(run_calls(scs, f"replay{k}"), "replay")
+                if violations:
+                    break
+        return {"known": known_seen, "violations": violations}
+
+    # 1. model checking: the send buffer design (safety + liveness); the session model is checked under C13
+    t1 = time.time()
+    st = {"distinct": 0, "generated": 0}
+    if not os.environ.get("VERIF_DEV_SKIP_MC"):
+        cfg = open(os.path.join(vlib.SPEC, "MC_C20buf.cfg")).read()
+        if tier == "quick":
+            cfg = cfg.replace("MaxHand = 4", "MaxHand = 3")
+        out = vlib.tlc(d, "MC_C20buf", cfg, workers=8, timeout=3000, heap="8g")
+        err, st = vlib.tlc_error(out), vlib.tlc_stats(out)
+        if err or not st:
+            raise ToolError("model checking of SendBuffer failed: %s\n%s" % (err, out[-3000:]))
+        out = vlib.tlc(d, "MC_C20buf", open(os.path.join(vlib.SPEC, "MC_C20buf_live.cfg")).read(), workers=4, timeout=3000, heap="8g")
+        err2, st2 = vlib.tlc_error(out), vlib.tlc_stats(out)
+        if err2 or not st2:
+            raise ToolError("liveness checking of SendBuffer failed: %s\n%s" % (err2, out[-3000:]))
+    log(f"[{prop}] TLC SendBuffer (safety + EventuallyQuiet): {st['distinct']} distinct states, {time.time()-t1:.0f}s")
+    # 2. concurrent calls
+    t2 = time.time()
+    scs = sess.gen_c20(rnd, tier)
+    nb = 8
+    batches = [scs[i::nb] for i in range(nb) if scs[i::nb]]
+    results = vlib.parallel(lambda ib: run_calls(ib[1], f"b{ib[0]}"), list(enumerate(batches)))
+    nrec = 0
+    for i, r in enumerate(results):
+        nrec += r["n"]
+        handle_calls(r, f"b{i}")
+    log(f"[{prop}] {len(scs)} client scenarios (2-4 tasks on one connection), {nrec} records linearized against the spec, {time.time()-t2:.0f}s")
+    # 3. send buffer
+    t3 = time.time()
+    bscs = sess.gen_c20_buffer(rnd, tier)
+    bb = [bscs[i::nb] for i in range(nb) if bscs[i::nb]]
+    bres = vlib.parallel(lambda ib: run_buffer(ib[1], f"b{ib[0]}"), list(enumerate(bb)))
+    nobs = 0
+    for i, r in enumerate(bres):
+        nobs += r["n"]
+        handle_buffer(r, f"b{i}")
+    log(f"[{prop}] {len(bscs)} send-buffer scenarios, {nobs} observations explained by SendBuffer.tla, {time.time()-t3:.0f}s")
+    cov = {"states": max(1, st["distinct"]), "transitions": max(1, st["generated"]),
+           "traces_validated_against_impl": len(scs) + len(bscs), "samples": [scs[0], bscs[0]], "exhaustive": False,
+           "trace_records_validated": nrec + nobs,
+           "explanation": "TLC exhaustive on SendBuffer.tla (safety and liveness); real worterbuch_client connection over a unix socket to an "
+                          "in-process server, handle cloned to 2-4 tasks, every task log explained by an interleaving (Trace_Session, client "
+                          "id shared by the task logs), server-side probe after each of the four unsubscribe variants; send buffer run under "
+                          "tokio's paused clock on local_client_wrapper with a recording WbApi, observations explained by Trace_Buffer"}
+    return {"coverage": cov, "known": known_seen, "violations": violations,
+            "assumptions": ["unix socket transport only (tcp.rs shares the connection loop; ws not driven)",
+                            "acquire_lock, spub and the last-will/grave-goods helpers of the library are not driven",
+                            "the send buffer is observed on local_client_wrapper (same connection loop, in-process transport)",
+                            "values of `deleted` events of plain subscriptions are not observable through the library (Option::None)"]}
+
+
+CHECKS["C20"] = c20_check
 
 
 # ----------------------------------------------------------------------------- C16: aggregator
